@@ -118,6 +118,10 @@ var props = map[string]propSpec{
 		Rule: "a run counts when >=1 promotion, demotion or removal was carried out (configuration entry stored) and a timeout-now or election event reached a node; distinct by schedule hash"},
 	"C12": {ID: "C12", Engine: "raft", Profiles: []profShare{{"snapmember", 1}},
 		Rule: "a run counts when >=1 snapshot was published on a node after >=2 configuration entries were stored; distinct by schedule hash"},
+	"C13": {ID: "C13", Engine: "log", Profiles: []profShare{{"logseq", 1}},
+		Rule: "a run (one operation program against the sequence model) counts when the log spanned >=2 segments, >=1 front or back removal happened and a view was read by another goroutine while the writer appended; distinct by schedule hash"},
+	"C14": {ID: "C14", Engine: "log", Level: "fault_enumeration", Profiles: []profShare{{"logcrash", 1}},
+		Rule: "a run is one sampled operation program in which EVERY file-system/mmap call boundary of the writer is taken as a crash point (process-kill image re-opened with the real Open; for a third of the boundaries also 1-2 power-loss images); it counts when >=1 commit completed and >=10 crash points were checked; distinct by schedule hash"},
 	"C15": {ID: "C15", Engine: "raft", Profiles: []profShare{{"mix", 1}}, Race: true,
 		Rule: "a run counts when >=3 kinds of admin activity (snapshot, transfer, membership, restart) overlapped client load; distinct by schedule hash"},
 	"C16": {ID: "C16", Engine: "raft", Profiles: []profShare{{"transfer", 1}},
